@@ -53,7 +53,6 @@ func (rw *unescapeRewriter) WriteFieldBody(value string, record *base.LogRecord,
 	if record.Unescaped {
 		return copy(buffer, value)
 	}
-	record.Unescaped = true
 	first := unescaper.FindFirst(value)
 	if first == -1 {
 		return copy(buffer, value)
